@@ -481,7 +481,7 @@ fn exec(pool: &[Option<Obj>], toks: &[&str]) -> Step {
                 _ => Step::Na,
             }
         }
-        "conv" => {
+        "conv" | "bigconv" => {
             let x = need!(reg(toks[2]));
             match (toks[1], x) {
                 ("E", Obj::E(e)) => Step::Ok(Obj::E(e)),
